@@ -126,7 +126,7 @@ def cross(ck, q, *names):
             # large-clock regime (DESIGN.md 3.6): an epoch-like clock (1.7 * 10^18) whose successive values differ by 2^33, so that
             # queue times of resting orders differ in their upper 32 bits; several price levels per side, aggressors sweeping them
             book_gen(ck, "x_big_clock", Ops=["cap", "cancel", "modify"], Prices=[10, 11, 12], Vols=[1, 2], Kinds=["L", "M"], ModPrices=[-1, 11],
-                     ModVols=["none", "smaller"], MaxOrders=3 if q else 4, MaxOps=4 if q else 5, time_scale=1 << 33, time_offset=1700000000000000000,
+                     ModVols=["none", "smaller"], MaxOrders=3 if q else 4, MaxOps=4 if q else 5, time_scale=1 << 33, time_offset=1700000000123456789,
                      need=("has_trade", "sweep_two_levels", "op_modify"), timeout=300 if q else 1500)
         elif nm == "long_queue":
             # a touch level that holds ten orders (a size-dependent matching path would be taken), swept exactly by the drain probe's
@@ -306,6 +306,9 @@ def c04(tier, seed):
              Prices=[10], Vols=[1], ModPrices=[-1, 10], ModVols=["none", "equal", "larger"], MaxOrders=2, MaxOps=4 if q else 5,
              need=("rejected_order",), timeout=300 if q else 1500)
     cross(ck, q, "ties", "ties_modify", "split_modify", "top_price", "big_clock")
+    # the same lifecycle through a two-asset market (arrival and end times under the shared clock, set_time between calls)
+    mkt_gen(ck, "gen_market_lifecycle", Ticks=(1, 1), Ops=["cap", "create", "place", "cancel", "settime"], Kinds=["L", "M"], Prices=[10], Vols=[1], MaxOrders=2,
+            MaxOps=4, need=("ops_on_two_assets", "has_trade"), timeout=300 if q else 1500)
     prof = {"discipline": True, "p_redundant": 0.3, "audit_every": 25, "w": {"toggle": 0.4, "settime": 1.5, "place": 4, "create": 3}}
     ck.traces_stage("rand_redundant", "record_book", prof, files=8 if q else 64, runs=2 if q else 4, ops=300)
     python_view(ck, q)
@@ -406,6 +409,9 @@ def c07(tier, seed):
     # carries the price 2^32 - 1, which is not on that grid) and limit orders at the last grid price below it
     book_gen(ck, "gen_reload_tick2_top", Ops=["cap", "cancel", "reload"], Tick=2, NLevels=2, Prices=[12, 14], Vols=[1, 2], Kinds=["L", "M"],
              price_offset=high(2, 14), MaxOrders=3, MaxOps=4, trunc_every=40 if q else 4, need=("op_reload", "has_trade", "cancelled_order"), timeout=300 if q else 1500)
+    # snapshots at an epoch-like clock (1.7 * 10^18 + odd: no such time is representable in a double), one time unit per call
+    book_gen(ck, "gen_reload_epoch", Ops=["cap", "cancel", "reload"], Prices=[10, 11], Vols=[1, 2], Kinds=["L", "M"], time_offset=1700000000123456789,
+             MaxOrders=3, MaxOps=4, need=("op_reload", "has_trade", "cancelled_order"), timeout=300 if q else 1500)
     # the restore path (both sides rebuilt from the Active entries' stored keys) in the implementation-shaped model
     impl_mc(ck, "mc_impl_reload", Ops=["cap", "cancel", "modify", "reload"], Dts=[1], Discipline=True, Prices=[10, 11], Vols=[1, 2],
             ModPrices=[-1, 11], ModVols=["smaller", "larger"], MaxOrders=3, MaxOps=4 if q else 5, timeout=300 if q else 1200)
@@ -639,9 +645,9 @@ def c08(tier, seed):
     env_gen(ck, "gen_menv", kind="menv", seeds=s, Ticks=(1, 2), StepSize=3, T0=7, Ops=["new", "cancel", "step", "disable", "enable"], Kinds=["L"] if q else ["L", "M"],
             Prices=[10], MaxSubmits=3, MaxBatch=3, MaxSteps=2, MaxOrders=2,
             need=("schedule_matters", "has_trade", "trading_toggled"), timeout=400 if q else 1800)
-    # clocks near the top of the 64-bit range (the last step ends 10 units below 2^64) and epoch-like clocks: the same outcome
+    # clocks at the top of the 64-bit range (the third step ends exactly at 2^64 - 1; instructions are stamped below it) and epoch-like clocks: the same outcome
     # sets with every time shifted (the specification is invariant under a translation of time)
-    env_gen(ck, "gen_env_clock_top", kind="env", seeds=s, time_offset=(1 << 64) - 19, StepSize=3, T0=0, Ops=["new", "cancel", "step"], Kinds=["L", "M"],
+    env_gen(ck, "gen_env_clock_top", kind="env", seeds=s, time_offset=(1 << 64) - 10, StepSize=3, T0=0, Ops=["new", "cancel", "step"], Kinds=["L", "M"],
             Prices=[10], Vols=[1, 2], MaxSubmits=3, MaxBatch=3, MaxSteps=3, MaxOrders=3, need=("has_trade", "multi_step"), timeout=400 if q else 1800)
     env_gen(ck, "gen_menv_clock_epoch", kind="menv", seeds=s, time_offset=1700000000123456789, Ticks=(1, 1), StepSize=2, T0=1, Ops=["new", "step"], Kinds=["L"],
             Prices=[10], Vols=[1], MaxSubmits=3, MaxBatch=2, MaxSteps=2, MaxOrders=2, need=("has_trade", "multi_step"), timeout=400 if q else 1800)
@@ -693,7 +699,7 @@ def c11(tier, seed):
             Vols=[1, 2] if not q else [2], MaxSubmits=3, MaxBatch=3, MaxSteps=2, MaxOrders=2, need=("multi_step", "has_trade"), timeout=400 if q else 1800)
     # modifications that trade (re-priced across the touch): their volume belongs to the step's traded volume
     env_gen(ck, "gen_env_records_modify", kind="env", seeds=s, NLevels=2, T0=1001, Ops=["new", "modify", "step"], Kinds=["L"], Prices=[10, 11], Vols=[1, 2],
-            ModPrices=[10, 11], ModVolsAbs=[-1], MaxSubmits=3 if q else 4, MaxBatch=2, MaxSteps=3, MaxOrders=2,
+            ModPrices=[-1, 10, 11], ModVolsAbs=[-1, 1], MaxSubmits=3 if q else 4, MaxBatch=2, MaxSteps=3, MaxOrders=2,
             need=("multi_step", "has_trade", "has_modify"), timeout=400 if q else 1800)
     env_gen(ck, "gen_menv_records_modify", kind="menv", seeds=s, Ticks=(1, 1), NLevels=2, Ops=["new", "modify", "step"], Kinds=["L"], Prices=[10, 11], Vols=[1],
             ModPrices=[10, 11], ModVolsAbs=[-1], MaxSubmits=3, MaxBatch=2, MaxSteps=2 if q else 3, MaxOrders=2,
@@ -726,6 +732,9 @@ def c14(tier, seed):
             need=("ops_on_two_assets", "trading_toggled", "op_modify", "op_reload"), timeout=400 if q else 1800)
     mkt_gen(ck, "gen_market3", Ticks=(2, 1, 3), NLevels=1, Ops=["cap", "cancel"], Kinds=["L"], Prices=[6, 12], Vols=[1, 2], MaxOrders=2,
             MaxOps=3 if q else 4, need=("ops_on_two_assets", "trades_on_two_assets") if not q else ("ops_on_two_assets",), timeout=400 if q else 1800)
+    # the lower end of the price range at market level: bids resting at price 0 (all-asset level queries)
+    mkt_gen(ck, "gen_market2_low", Ticks=(1, 1), NLevels=2, Ops=["cap", "cancel"], Kinds=["L"], Prices=[0, 1], Vols=[1, 2], MaxOrders=2, MaxOps=3 if q else 4,
+            need=("ops_on_two_assets", "has_trade"), timeout=300 if q else 1500)
     # re-queuing modifications through the market (same price / same volume still loses priority): three orders per asset
     mkt_gen(ck, "gen_market2_priority", Ticks=(1, 1), Ops=["cap", "modify"], Kinds=["L"], Prices=[10], Vols=[1, 2], ModPrices=[-1, 10],
             ModVolsAbs=[-1, 2], MaxOrders=3, MaxOps=4, need=("ops_on_two_assets", "op_modify", "has_trade"), timeout=400 if q else 1800)
